@@ -1,5 +1,61 @@
-import FGVerif.Driver.Shared
-/-! driver operations for C09 (stub: replaced by the property's own driver) -/
+import FGVerif.Wire
+import FGVerif.Model.C09
+/-! driver operations for C09 -/
 namespace C09
-def handle : List SExp → Option SExp := fun _ => none
+open SExp
+
+/-- `(id sym aam|_)` -/
+def asMolNode : SExp → Option (Int × String × Option Int)
+  | .list [i, s, a] => do pure (← asInt i, ← asStr s, ← asOpt asInt a)
+  | _ => none
+
+/-- `(u v order)` -/
+def asMolEdge : SExp → Option (Int × Int × Int)
+  | .list [u, v, l] => do pure (← asInt u, ← asInt v, ← asInt l)
+  | _ => none
+
+/-- `((node …) (edge …))` -/
+def asMol : SExp → Option Mol
+  | .list [ns, es] => do pure { nodes := ← asList asMolNode ns, edges := ← asList asMolEdge es }
+  | _ => none
+
+/-- `(id sym|_ aam|_)` -/
+def asINode : SExp → Option INode
+  | .list [i, s, a] => do pure (← asInt i, ← asOpt asStr s, ← asOpt asInt a)
+  | _ => none
+
+/-- `(u v (g h))` -/
+def asIEdge : SExp → Option IEdge
+  | .list [u, v, .list [g, h]] => do pure (← asInt u, ← asInt v, (← asInt g, ← asInt h))
+  | _ => none
+
+def asIts : SExp → Option Its
+  | .list [ns, es] => do pure { nodes := ← asList asINode ns, edges := ← asList asIEdge es }
+  | _ => none
+
+def ofINode (x : INode) : SExp := .list [ofInt x.1, ofOpt ofStr x.2.1, ofOpt ofInt x.2.2]
+def ofIEdge (e : IEdge) : SExp := .list [ofInt e.1, ofInt e.2.1, .list [ofInt e.2.2.1, ofInt e.2.2.2]]
+def ofIts (I : Its) : SExp := .list [ofList ofINode I.nodes, ofList ofIEdge I.edges]
+
+def isRaised : SExp → Bool
+  | .list (.atom "raised" :: _) => true
+  | _ => false
+
+/-- `(its <G> <H> [<impl ITS> | (raised Kind)])` →
+    `(ok <model ITS, canonical> <spec on model> <spec on impl> <in domain>)` -/
+def handle : List SExp → Option SExp
+  | .atom "its" :: g :: h :: rest => do
+      let G ← asMol g
+      let H ← asMol h
+      let model := getIts G H
+      let specImpl ← match rest with
+        | [impl] =>
+            if isRaised impl then pure (ofBool false) else do
+              let I ← asIts impl
+              pure (ofBool (specCheck G H I))
+        | _ => pure none'
+      pure (.list [.atom "ok", ofIts (canonIts model), ofBool (specCheck G H model), specImpl,
+                   ofBool (domOk G && domOk H)])
+  | _ => none
+
 end C09
